@@ -151,6 +151,9 @@ func c15Item(kind string, id string, c ap.CollectionPath, explicit string) (ds [
 			ex = ap.IRI("https://elsewhere.example.net/custom/" + string(c))
 		case "collection":
 			ex = &ap.OrderedCollection{ID: ap.IRI("https://elsewhere.example.net/embedded/" + string(c)), Type: ap.OrderedCollectionType, TotalItems: 2}
+		case "collection-idless":
+			// an embedded collection that has no id of its own (a count and a first page inlined in the owner): still the explicit one
+			ex = &ap.OrderedCollection{Type: ap.OrderedCollectionType, TotalItems: 2, First: ap.IRI("https://elsewhere.example.net/embedded/first")}
 		}
 		f.Set(reflect.ValueOf(&ex).Elem())
 		want = ex
@@ -163,6 +166,12 @@ func c15Item(kind string, id string, c ap.CollectionPath, explicit string) (ds [
 	pi := evSafe(func() {
 		gotIRI := c.IRI(x)
 		gotOf := c.Of(x)
+		if want != nil && explicit == "collection-idless" {
+			if gotOf != want {
+				ds = append(ds, keyed{"typer item explicit-of-idless " + cls, fmt.Sprintf("%s.Of(%s with an embedded %s that has no id) = %v, not the embedded collection", c, kind, c, gotOf)})
+			}
+			return
+		}
 		if want != nil {
 			if gotIRI != want.GetLink() {
 				ds = append(ds, keyed{"typer item explicit-iri " + cls, fmt.Sprintf("%s.IRI(%s with explicit %s %q) = %q", c, kind, c, want.GetLink(), gotIRI)})
@@ -249,7 +258,7 @@ func TestC15(t *testing.T) {
 		for _, kind := range kinds {
 			for _, id := range []string{"https://example.com/users/jdoe", "https://example.com:8443/~a/", "http://sub.example.org/inbox/b", "https://example.com"} {
 				for _, c := range c15Names {
-					for _, ex := range []string{"", "iri", "collection"} {
+					for _, ex := range []string{"", "iri", "collection", "collection-idless"} {
 						total++
 						cell := fmt.Sprintf("%s %s %s explicit=%s", kind, id, c, ex)
 						if !r.WantCell(cell) {
@@ -286,7 +295,7 @@ func TestC15(t *testing.T) {
 		c := rapid.SampledFrom(c15Names).Draw(t, "name")
 		ds := c15Owner(o, c)
 		kind := rapid.SampledFrom([]string{"actor", "object"}).Draw(t, "kind")
-		ex := rapid.SampledFrom([]string{"", "iri", "collection"}).Draw(t, "explicit")
+		ex := rapid.SampledFrom([]string{"", "iri", "collection", "collection-idless"}).Draw(t, "explicit")
 		d2, has := c15Item(kind, o, c, ex)
 		ds = append(ds, d2...)
 		feats := c15Features(o)
